@@ -31,6 +31,8 @@ def corpus():
         "ramp 10 0 1000000000 %d %s" % (10 * S, ints([0, S, 5 * S, 10 * S - 1, 10 * S, 10 * S + 1, 11 * S])),
         "ramp 5 5 1000000000 %d 0" % (10 * S),
         "ramp 1 2 1000000000 500000000 0",
+        "ramp 0 100 1000000000 2500000000 %s" % ints([0, S // 2, S, 3 * S // 2, 2 * S, 2 * S + S // 4, 2 * S + 2 * S // 5, 5 * S // 2, 5 * S // 2 + 1]),   # 2.5 units
+        "ramp 10 70 60000000000 90000000000 %s" % ints([0, 30 * S, 60 * S, 75 * S, 90 * S, 91 * S]),
         # through the builders: the --stages string (zero-padded targets are decimal) and the ramp's own duration flag
         "bstaged %s %s" % (hx("0s:010, 10s:050, 5s:50, 5s:0"), ints([0, S, 5 * S, 10 * S, 12 * S, 15 * S, 17 * S, 20 * S, 21 * S])),
         "bstaged %s %s" % (hx("10s:10, 0s:100, 10s:100"), ints([0, 5 * S, 10 * S, 10 * S + 1, 15 * S, 20 * S, 20 * S + 1])),
@@ -84,7 +86,8 @@ def gen_ramp(rng):
     unit = rng.choice([S, S, S // 10, 60 * S, 1])
     s = rng.choice([0, 1, 10, 1000, rng.randint(0, 10**6)])
     e = rng.choice([0, 1, 10, 1000, rng.randint(0, 10**6), s, s + 1])
-    dur = rng.choice([unit, 2 * unit, 10 * unit, 3600 * S, 86400 * S, rng.randint(1, 200) * unit, max(0, unit - 1)])
+    dur = rng.choice([unit, 2 * unit, 10 * unit, 3600 * S, 86400 * S, rng.randint(1, 200) * unit, max(0, unit - 1),
+                      unit + unit // 2, 2 * unit + unit // 3 + 1, rng.randint(1, 50) * unit + rng.randint(1, max(1, unit - 1))])   # not a whole number of units
     pts = {0, 1, dur - 1, dur, dur + 1, dur // 2, dur // 3, 2 * dur}
     for _ in range(rng.randint(0, 6)):
         pts.add(rng.randint(0, dur + 2))
